@@ -7,8 +7,8 @@ shadowed by a local; stores on class objects (cls.X, ClassName.X, type(self).X, 
 a class); stores *through an instance* on an attribute whose only binding is a mutable literal in the class
 body (shared by every instance) unless __init__ rebinds it per instance; memoising decorators (lru_cache,
 cache); mutable default arguments.  The scan is purely syntactic and re-reads the source on every run.
-What it does not see: state reached through an alias (`d = MODULE_DICT; d[k] = v` is seen -- the receiver
-name is resolved -- but `f(MODULE_DICT)` mutating its parameter is not), C extensions, monkey-patching from
+What it does not see: state reached through an alias other than a direct local binding (`d = MODULE_DICT;
+d[k] = v` is seen; `f(MODULE_DICT)` mutating its parameter, or `d = MODULE.get(...)`, is not), C extensions, monkey-patching from
 outside the package."""
 import ast
 import os
@@ -57,6 +57,8 @@ def scan(path, rel):
                     if isinstance(x,ast.Name): local.add(x.id)
             if isinstance(n,ast.Import) or isinstance(n,ast.ImportFrom):
                 for a in n.names: local.add((a.asname or a.name).split(".")[0])
+        # local names bound directly to a module-level object (d = MODULE_DICT; self-evident aliases only)
+        aliases={t.id for n in ast.walk(fn) if isinstance(n,ast.Assign) and isinstance(n.value,ast.Name) and n.value.id in G and n.value.id not in params for t in n.targets if isinstance(t,ast.Name)}
         globs=set()
         for n in ast.walk(fn):
             if isinstance(n,ast.Global): globs|=set(n.names); out.append((rel,fn.name,n.lineno,f"global {', '.join(n.names)}"))
@@ -90,7 +92,7 @@ def scan(path, rel):
                 if classy(e.value): out.append((rel,fn.name,lineno,f"{what} on a class object: {ast.unparse(t)[:60]}")); return
                 e=e.value
             if isinstance(b,ast.Name):
-                if b.id in G and b.id not in local or b.id in globs:
+                if b.id in aliases or b.id in G and b.id not in local or b.id in globs:
                     out.append((rel,fn.name,lineno,f"{what} on module-level {b.id}: {ast.unparse(t)[:60]}")); return
                 if selfname and b.id==selfname:
                     # self.X[...] = / self.X.mut(): X class-level mutable?
